@@ -61,8 +61,8 @@ CHECKS += [
   "text": "Decides three guards: accumulators that can be empty are tested before stacking (empty spheres), plane spacings provably non-negative (any sign of lattice vectors), no argument rejection beyond the plain grid without lattice vectors (one known finding: infinite radius, pinned by a test). Does NOT decide completeness/uniqueness of the image enumeration (geometric).",
   "note": _NOTE},
  {"id": "C13", "engine": "gridlint", "design_ref": "DESIGN.md 4/C13",
-  "technique": "static guard-dominance analysis of third-axis constructs in the 2-D-capable code of cubic.py",
-  "text": "Decides the clause 'every documented weighting scheme (and the index maps) construct in both dimensions': every construct that only exists in 3-D is dominated by a test implying ndim == 3. Does NOT decide index-map inversion, weights summing to the volume, nearest point, molecule margin, cube round trip, interpolation (numerical).",
+  "technique": "static guard-dominance analysis of third-axis constructs + symbolic array-shape abstract interpretation (per dimensionality) of the weight schemes",
+  "text": "Decides the clause 'every documented weighting scheme (and the index maps) construct in both dimensions': every construct that only exists in 3-D is dominated by a test implying ndim == 3; and the tensor-layout clause for weights: in 2-D and 3-D every scheme returns the C-order flattening of an array with axes (shape[0], shape[1][, shape[2]]) (or a uniform vector), Tensor1DGrids krons its weights in the meshgrid('ij') order of its points. Does NOT decide index-map inversion arithmetic, weights summing to the volume, nearest point, molecule margin, cube round trip, interpolation (numerical).",
   "note": _NOTE},
  {"id": "C14", "engine": "gridlint", "design_ref": "DESIGN.md 4/C14",
   "technique": "static name resolution of third-party references + branch-shape analysis of the order generator + dispatch agreement",
